@@ -1,6 +1,7 @@
 import RactorModel.Lemmas.TimersProps
 import RactorModel.Lemmas.TimersDrop
 import RactorModel.Lemmas.TimersDeliver
+import RactorModel.Lemmas.TimersStops
 
 /-!
 # C12 — timers fire once, never early, and die with their target
@@ -44,9 +45,12 @@ theorem ok_all (ops : List Op) : ok (steps init ops) = true :=
 
 /-- At every quiescent point of a quiescent run both predicates hold. -/
 theorem ok_quiescent (ms : List MOp) : ok (mrun init ms) = true ∧ okPrompt (mrun init ms) = true := by
-  refine ⟨?_, (BInv.init.mrun ms).okPrompt⟩
-  obtain ⟨ops, e⟩ := mrun_eq_steps init ms
-  rw [e]; exact ok_all ops
+  refine ⟨?_, ?_⟩
+  · obtain ⟨ops, e⟩ := mrun_eq_steps init ms
+    rw [e]; exact ok_all ops
+  · obtain ⟨ha, hs⟩ := settled_mrun ms AInv.init settled_init
+    unfold okPrompt
+    rw [(BInv.init.mrun ms).okPrompt1, stopsOk_of (BInv.init.mrun ms).inv ha hs]; rfl
 
 /-- DELIVERY-level at-most-once, for every schedule: no message (timer id, k) is in the mailbox or in
 the handled log twice — a `send_after` message is handled at most once, the k-th interval message at
@@ -60,6 +64,77 @@ theorem delivered_at_most_once (ops : List Op) :
         ∃ t, τ.sentAt[h.2.1 - 1]? = some t ∧ t ≤ h.2.2) ∧
     (s.target.exit ≠ none → s.target.mbox = []) :=
   delivered' (Inv.init.steps ops) (DInv.init.steps Inv.init ops)
+
+/-- `exit_after`, the fire step (the analogue of `sendAfter_fires`): in ANY reachable state, when the
+sleeping task is polled at or after its wheel deadline it acts exactly once, now, and what it does
+is `actor.stop(Some("Exit after {as_millis}ms"))` — a no-op on a target that is gone or already has
+a stop request (first request wins). -/
+theorem exitAfter_fires (ops : List Op) (i : Nat) (τ : Timer) (a : Nat)
+    (hi : (steps init ops).timers[i]? = some τ) (hk : τ.kind = .exitAfter) (hp : τ.res = .pending)
+    (ha : τ.armed = some a) (hd : wheelDeadline a τ.period ≤ (steps init ops).now) :
+    let s := steps init ops
+    (step s (.fire i)).timers[i]? = some ((τ.attempt s.now).finish .ok s.now) ∧ τ.sentAt = [] ∧
+      (step s (.fire i)).target = s.target.stop (.exitAfter (asMillis τ.period)) :=
+  exitAfter_fires' (Inv.init.steps ops) i τ a hi hk hp ha hd
+
+/-- `kill_after`, the fire step: `actor.kill()`. -/
+theorem killAfter_fires (ops : List Op) (i : Nat) (τ : Timer) (a : Nat)
+    (hi : (steps init ops).timers[i]? = some τ) (hk : τ.kind = .killAfter) (hp : τ.res = .pending)
+    (ha : τ.armed = some a) (hd : wheelDeadline a τ.period ≤ (steps init ops).now) :
+    let s := steps init ops
+    (step s (.fire i)).timers[i]? = some ((τ.attempt s.now).finish .ok s.now) ∧ τ.sentAt = [] ∧
+      (step s (.fire i)).target = s.target.kill :=
+  killAfter_fires' (Inv.init.steps ops) i τ a hi hk hp ha hd
+
+/-- The POSITIVE half, "the actor actually exits". For every schedule: (1) a live idle target (no
+request pending, not in `post_stop`, gate open) whose `exit_after` just acted exits with exactly that
+reason, at that instant, the next time its task runs; after a `kill_after` acted, a target that is
+not gone exits `"killed"` the next time its task runs — whatever else is pending (a kill overrides
+a stop request and cancels `post_stop`). (2) In any reachable state: once an `exit_after` has acted
+the stop request is on record or the actor is gone, once a `kill_after` has acted the kill request
+is on record or the actor is gone (requests are never taken back), and after the target's task has
+run a recorded kill has been obeyed and a recorded stop has at least ended the message loop. -/
+theorem exit_after_stops (T : Target) (p now : Nat) (he : T.exit = none) :
+    (T.killReq = false → T.stopReq = none → T.stopping = none → T.psGate = false →
+      ((T.stop (.exitAfter (asMillis p))).run now).exit = some (.exitAfter (asMillis p), now)) ∧
+    (T.kill.run now).exit = some (.killed, now) :=
+  ⟨fun hk hs hst hg => stop_then_run T _ now he hk hs hst hg, kill_then_run T now he⟩
+
+theorem acted_then_requested (ops : List Op) :
+    let s := steps init ops
+    (∀ τ ∈ s.timers, τ.kind = .exitAfter → τ.sentAt ≠ [] → s.target.stopReq ≠ none ∨ s.target.exit ≠ none) ∧
+    (∀ τ ∈ s.timers, τ.kind = .killAfter → τ.sentAt ≠ [] → s.target.killReq = true ∨ s.target.exit ≠ none) ∧
+    (((step s .target).target.killReq = true → (step s .target).target.exit ≠ none) ∧
+     ((step s .target).target.stopReq ≠ none →
+        (step s .target).target.closedAt ≠ none ∨ (step s .target).target.exit ≠ none)) :=
+  ⟨(AInv.init.steps ops).exitA, (AInv.init.steps ops).killA,
+   run_settled _ _ (AInv.init.steps ops).sc⟩
+
+/-- ... and at every quiescent point of a quiescent run (this is the clause `stopsOk` of
+`Timers.okPrompt`, evaluated on the exit the real supervisor observed): a `kill_after` that has acted
+⇒ the actor is gone; an `exit_after` that has acted ⇒ the actor has stopped accepting (gone, or in
+`post_stop`). -/
+theorem acted_then_gone (ms : List MOp) (τ : Timer) (hτ : τ ∈ (mrun init ms).timers) (hne : τ.sentAt ≠ []) :
+    (τ.kind = .killAfter → (mrun init ms).target.exit ≠ none) ∧
+    (τ.kind = .exitAfter → (mrun init ms).target.closedAt ≠ none) := by
+  obtain ⟨ha, hs⟩ := settled_mrun ms AInv.init settled_init
+  have := stopsOk_of (BInv.init.mrun ms).inv ha hs
+  rw [List.all_eq_true] at this
+  have := this τ hτ
+  unfold stopsOk at this
+  have hne' : τ.sentAt.isEmpty = false := by
+    cases h : τ.sentAt with
+    | nil => exact absurd h hne
+    | cons => rfl
+  constructor
+  · intro hk
+    simp only [hk, hne', beq_self_eq_true, Bool.not_false, Bool.and_self, Bool.not_true, Bool.false_or,
+      Bool.and_eq_true] at this
+    intro h; rw [h] at this; simp at this
+  · intro hk
+    simp only [hk, hne', beq_self_eq_true, Bool.not_false, Bool.and_self, Bool.not_true, Bool.false_or,
+      Bool.and_eq_true] at this
+    intro h; rw [h] at this; simp at this
 
 /-- a one-shot's message is handled at most once -/
 theorem oneShot_handled_once (ops : List Op) (i : Nat) (τ : Timer) (hi : (steps init ops).timers[i]? = some τ)
@@ -332,3 +407,8 @@ end C12
 #print axioms C12.mistyped_fails_once
 #print axioms C12.delivered_at_most_once
 #print axioms C12.oneShot_handled_once
+#print axioms C12.exitAfter_fires
+#print axioms C12.killAfter_fires
+#print axioms C12.exit_after_stops
+#print axioms C12.acted_then_requested
+#print axioms C12.acted_then_gone
